@@ -150,6 +150,11 @@ func init() {
 			})
 			c.guard("C05.5", func() { ruleRegistrationKey(c, "C05.5") })
 			c.guard("C05.6", func() { ruleFreshPerCallState(c, "C05.6") })
+			c.guard("C05.8", func() {
+				// what one call receives is not storage shared with the next: every transport hands up the envelope it
+				// decoded into a fresh object, and hands down exactly the caller's envelope
+				ruleTransportPassThrough(c, "C05.8")
+			})
 			c.guard("C05.7", func() {
 				// what a call puts on the wire is an owned copy of its own message: no bytes shared between calls
 				rulePayloadProvenance(c, "C05.7")
@@ -172,6 +177,12 @@ func init() {
 			c.guard("C06.7", func() { ruleUnknownStream(c, "C06.7") })
 			c.guard("C06.8", func() { ruleUnaryReplyComplete(c, "C06.8") })
 			c.guard("C06.9", func() { ruleHalfCloseAndFinalStatus(c, "C06.9") })
+			c.guard("C06.10", func() {
+				// "a client's single, final reset": nothing follows it because every write of a client stream is bound to
+				// the stream context, and the teardown that sends the reset cancels that context
+				ruleStreamBlockingHonoursCtx(c, "C06.10")
+				rulePerRPCGoroutinesCanExit(c, "C06.10")
+			})
 		},
 	})
 }
@@ -185,7 +196,11 @@ func init() {
 		run: func(c *Ctx, thorough bool) {
 			c.guard("C07.1", func() { ruleStreamCtxDescends(c, "C07.1") })
 			c.guard("C07.2", func() { ruleStreamBlockingHonoursCtx(c, "C07.2") })
-			c.guard("C07.3", func() { ruleCtxErrorToStatus(c, "C07.3"); ruleTerminalErrorAssigned(c, "C07.3") })
+			c.guard("C07.3", func() {
+				ruleCtxErrorToStatus(c, "C07.3")
+				ruleTerminalErrorAssigned(c, "C07.3")
+				ruleDoneArmYieldsCtxErr(c, "C07.3")
+			})
 			c.guard("C07.4", func() { ruleResetOnLiveContext(c, "C07.4") })
 			c.guard("C07.5", func() { ruleResetCancelsHandler(c, "C07.5") })
 			c.guard("C07.6", func() { ruleHandlerBlockingHonoursCtx(c, "C07.6") })
@@ -322,6 +337,10 @@ func init() {
 			c.guard("C14.3", func() { ruleCancelNotDropped(c, "C14.3") })
 			c.guard("C14.4", func() { rulePerRPCGoroutinesCanExit(c, "C14.4") })
 			c.guard("C14.5", func() { ruleQueuesDieWithRegistration(c, "C14.5") })
+			c.guard("C14.8", func() {
+				// a late message for a stream that has ended must not register the stream again (nobody will end it)
+				ruleUnknownStream(c, "C14.8")
+			})
 			c.guard("C14.7", func() {
 				// an RPC ends for the peer only if the terminal envelopes have the shape the peer treats as terminal
 				ruleShapeCatalogue(c, "C14.7")
@@ -343,6 +362,12 @@ func init() {
 			c.guard("C15.3", func() { ruleSingleOwnerFields(c, "C15.3") })
 			c.guard("C15.4", func() { ruleReceivedEnvelopeStores(c, "C15.4") })
 			c.guard("C15.6", func() { ruleConsistentLocking(c, "C15.6") })
+			c.guard("C15.7", func() {
+				// close(ch) and ch <- v are conflicting accesses to the channel: they must be ordered by a common lock or
+				// by ownership, for every channel class
+				ruleCloseSendExclusion(c, "C15.7", nil)
+				ruleNoDoubleClose(c, "C15.7", nil)
+			})
 			c.guard("C15.5", func() {
 				// envelopes do not share mutable parts: every envelope has its own header literal, and payloads are owned
 				// copies, not aliases of recycled codec buffers
